@@ -12,7 +12,7 @@ PROP = dict(
          'useCount()==1+K checked every round. non-trivial = history with an assignment over a non-empty handle '
          'AND a destruction caused by a handle op, or a pop that destroys the old head; thread program with >= 2 threads; distinct by hash of the case',
     floor=dict(quick=1500, thorough=15000),
-    confirm_replays=10,
+    confirm_replays=16,
     assumptions=TRUST + ['thread interleavings are sampled; TSan happens-before analysis covers the executed accesses'],
     bins=[rc('C08_refcount', 'harness/C08_refcount.cpp', None),
           rc('C08_refcount_tsan', 'harness/C08_refcount.cpp', None, cxx='g++', san='-fsanitize=thread -fno-omit-frame-pointer',
